@@ -133,6 +133,67 @@ def web_circuit(rng):
     return stimtext.circuit_text(out)
 
 
+def obs_alias_circuit(rng):
+    """classical bit-flip webs on 3-5 qubits: every error is a set of X flips, every measurement a detector, two or three observables
+    that are random parities of the measurements and whose indices differ by 32 (or lie anywhere below 64): hyper errors must
+    be decomposed into edges whose observables XOR to the error's, which 32-bit observable masks would confuse"""
+    n = rng.choice([3, 3, 4, 5])
+    out = [Instr('R', [], [T('q', q) for q in range(n)])]
+    for q in range(n):
+        if rng.random() < 0.55:          # some qubits never fail alone: their edges are missing from the model
+            out.append(Instr(rng.choice(['E', 'X_ERROR']), [rng.choice([0.125, 0.02, 0.001])], [T('pauli', q, pauli='X')] if False else [T('q', q)])
+                       if False else Instr('X_ERROR', [rng.choice([0.125, 0.02, 0.001])], [T('q', q)]))
+    for _ in range(rng.randint(1, 4)):
+        k = rng.choice([2, 2, 3, 3, 4])
+        qs = rng.sample(range(n), min(k, n))
+        out.append(Instr('E', [rng.choice([0.0625, 0.01, 0.003])], [T('pauli', q, pauli='X') for q in qs]))
+    out.append(Instr('M', [], [T('q', q) for q in range(n)]))
+    # detectors: parities of one or two measurements, sometimes the same parity twice (so one fault fires two detectors)
+    dets = []
+    for _ in range(rng.randint(n, n + 2)):
+        sub = sorted(rng.sample(range(n), rng.choice([1, 1, 2])))
+        dets.append(sub)
+        if rng.random() < 0.3:
+            dets.append(sub)
+    for k, sub in enumerate(dets):
+        out.append(Instr('DETECTOR', [k], [T('rec', n - q) for q in sub]))
+    a, b = rng.choice([(0, 32), (5, 37), (33, 1), (32, 0), (31, 63), (1, 33), (7, 39)])
+    ids = [a, b] + ([rng.choice([2, 34, 20])] if rng.random() < 0.3 else [])
+    for i in ids:
+        sub = [q for q in range(n) if rng.random() < 0.5] or [rng.randrange(n)]
+        out.append(Instr('OBSERVABLE_INCLUDE', [i], [T('rec', n - q) for q in sub]))
+    return stimtext.circuit_text(out)
+
+
+def obs_alias_template(rng):
+    """qubit A fails alone (edge S + L_a); qubit B never fails alone but fires the same detectors S with L_b; qubit C fails alone
+    (edge T); the correlated fault X_B X_C is the hyper error S + T + L_b, for which no sound decomposition into known edges exists
+    unless L_a and L_b are confused"""
+    a, b = rng.choice([(0, 32), (5, 37), (33, 1), (32, 0), (31, 63), (1, 33), (7, 39), (0, 1), (2, 5)])
+    extra = rng.choice([0, 0, 1, 2])
+    n = 3 + extra
+    A, B, C = rng.sample(range(n), 3)
+    out = [Instr('R', [], [T('q', q) for q in range(n)])]
+    errs = [Instr('X_ERROR', [rng.choice([0.125, 0.01])], [T('q', A)]), Instr('X_ERROR', [rng.choice([0.25, 0.02])], [T('q', C)]),
+            Instr('E', [rng.choice([0.0625, 0.003])], [T('pauli', B, pauli='X'), T('pauli', C, pauli='X')])]
+    for q in range(n):
+        if q not in (A, B, C) and rng.random() < 0.7:
+            errs.append(Instr('X_ERROR', [0.01], [T('q', q)]))
+    rng.shuffle(errs)
+    out += errs
+    out.append(Instr('M', [], [T('q', q) for q in range(n)]))
+    dets = [[A, B]] * rng.choice([1, 2, 2]) + [[C]]
+    for q in range(n):
+        if q not in (A, B, C):
+            dets.append([q])
+    rng.shuffle(dets)
+    for k, sub in enumerate(dets):
+        out.append(Instr('DETECTOR', [k], [T('rec', n - q) for q in sub]))
+    out.append(Instr('OBSERVABLE_INCLUDE', [a], [T('rec', n - A)]))
+    out.append(Instr('OBSERVABLE_INCLUDE', [b], [T('rec', n - B)]))
+    return stimtext.circuit_text(out)
+
+
 def gen_code_circuit(rng):
     code, task = rng.choice([('surface_code', 'rotated_memory_x'), ('surface_code', 'unrotated_memory_z'), ('repetition_code', 'memory'),
                              ('color_code', 'memory_xyz')])
@@ -190,6 +251,9 @@ def run(rep, tier):
         if it < 0:
             text, cfold, cign, cblock = corpus[it + len(corpus)]
             src = 'corpus'
+        elif k < 0.12:
+            text = obs_alias_template(rng) if rng.random() < 0.5 else obs_alias_circuit(rng)
+            src = 'obs-alias'
         elif k < 0.3:
             text = web_circuit(rng)
             src = 'web'
@@ -213,6 +277,11 @@ def run(rep, tier):
             body = c03.add_deterministic_annotations(rng, body, stimtext.parse_spec_out(so)['rec'], 0)
             text = stimtext.circuit_text(body)
             src = 'random'
+        if it >= 0 and rng.random() < 0.35:
+            # observable indices up to 63, including pairs that differ by 32 (bit masks of observables must be 64 bits wide)
+            a, b = rng.choice([(0, 32), (5, 37), (33, 1), (32, 0), (31, 63), (40, 8), (3, 7), (62, 30), (63, 31)])   # the decomposer documents a limit of 64 observables
+            text = text.replace('OBSERVABLE_INCLUDE(0)', 'OBSERVABLE_INCLUDE(@A)').replace('OBSERVABLE_INCLUDE(1)', 'OBSERVABLE_INCLUDE(@B)')
+            text = text.replace('OBSERVABLE_INCLUDE(@A)', 'OBSERVABLE_INCLUDE(%d)' % a).replace('OBSERVABLE_INCLUDE(@B)', 'OBSERVABLE_INCLUDE(%d)' % b)
         fold = int(rng.random() < 0.5)
         ign = int(rng.random() < 0.4)
         block = int(rng.random() < 0.4)
